@@ -114,12 +114,14 @@ type div struct {
 
 // hx is the per-history execution context handed to the machines.
 type hx struct {
-	quiet bool // replica replays: prefix was already checked
-	d     *div
-	step  int
-	base  int // first operation of the current segment
-	cur   op
-	notes map[string]int
+	quiet     bool // replica replays: prefix was already checked
+	d         *div
+	step      int
+	base      int // first operation of the current segment
+	cur       op
+	notes     map[string]int
+	held      []*heldRes // returned aggregates kept by the "caller" (held.go)
+	scribbles int        // held results scribbled on in the current segment
 }
 
 func (x *hx) ok() bool { return x.d == nil }
@@ -130,6 +132,9 @@ func (x *hx) fail(class, format string, a ...any) {
 		return
 	}
 	x.d = &div{fp: class, what: fmt.Sprintf("step %d %s: ", x.step-x.base, x.cur) + fmt.Sprintf(format, a...), step: x.step}
+	if x.scribbles > 0 {
+		x.d.what += fmt.Sprintf(" [the caller had scribbled on %d result(s) the container returned earlier in this history: reordered, overwritten, filled spare capacity]", x.scribbles)
+	}
 }
 
 // failOp is fail with the current operation name as the class prefix.
@@ -229,6 +234,7 @@ func runHistory(d *def, cfg string, ops []op, wantStates, restart bool) histResu
 	for i, o := range ops {
 		x.step, x.cur = i, o
 		safeStep(m, x, o)
+		x.afterStep() // re-compare the results held from earlier steps, scribble on some of them
 		res.steps++
 		bad := diverged()
 		if !bad && wantStates {
@@ -251,6 +257,7 @@ func runHistory(d *def, cfg string, ops []op, wantStates, restart bool) histResu
 			m = d.mk(cfg)
 			start = i + 1
 			x.base = start
+			x.held, x.scribbles = nil, 0
 		}
 	}
 	if len(ops) > start && !d.replica { // replica containers were drained after the last step already
@@ -437,7 +444,7 @@ func run(c *vf.Ctx) {
 		replay(c)
 		return
 	}
-	c.SetRule("per container, history i uses configuration i mod #configs and an operation list drawn from a weighted op table by a PRNG derived from (seed, container, i); one evaluation = one operation applied to implementation and model with all observers compared afterwards; distinct_nontrivial = distinct (container, configuration, abstract model state) triples reached; distinct_states:<container> the same per container; <container>:<note> counters count the situations the expected defects and the mutations need (wrap-arounds, rebuilds, seen-then-new PushFront, limit drops on foreign topics, ...). Part conc (self-synchronising containers only: ShrinkingMap, RandomMap, Queue, RingBuffer, thread-safe Stack, PriorityQueue, timed.PriorityQueue, BytesFilter, TimeHeap, IndexedStorage, OnChangeMap, SubscriptionManager): history i of a definition uses configuration i mod #configs, 3-6 goroutines released by a spin barrier x 4-10 operations drawn by a PRNG derived from (seed, definition, i), unique values, seeded Gosched jitter (also inside callbacks), call/return stamps from one atomic counter, a sequential setup prefix and a quiescent tail of reads/drains; conc:evaluations = recorded operations handed to porcupine; conc:overlapping_pairs = pairs of operations of different goroutines whose [call,return] windows intersect; distinct_conc_shapes = distinct stamp-ordered call/return sequences of histories with at least one such pair; conservation scenarios (single-writer keys, determined final state) run a fixed number of rounds per variant; the same workloads run in a -race child, every second history/round without the stamping counter")
+	c.SetRule("per container, history i uses configuration i mod #configs and an operation list drawn from a weighted op table by a PRNG derived from (seed, container, i); one evaluation = one operation applied to implementation and model with all observers compared afterwards; distinct_nontrivial = distinct (container, configuration, abstract model state) triples reached; distinct_states:<container> the same per container; <container>:<note> counters count the situations the expected defects and the mutations need (wrap-arounds, rebuilds, seen-then-new PushFront, limit drops on foreign topics, ...); every slice/map/copy a container returns is kept by the caller together with a deep copy, re-compared after each of the following steps (<container>:held_rechecks) and, for two thirds of them, reordered/overwritten/extended within capacity on the caller's side (<container>:held_scribbles); argument slices are overwritten after the call. Part conc (self-synchronising containers only: ShrinkingMap, RandomMap, Queue, RingBuffer, thread-safe Stack, PriorityQueue, timed.PriorityQueue, BytesFilter, TimeHeap, IndexedStorage, OnChangeMap, SubscriptionManager): history i of a definition uses configuration i mod #configs, 3-6 goroutines released by a spin barrier x 4-10 operations drawn by a PRNG derived from (seed, definition, i), unique values, seeded Gosched jitter (also inside callbacks), call/return stamps from one atomic counter, a sequential setup prefix and a quiescent tail of reads/drains; conc:evaluations = recorded operations handed to porcupine; conc:overlapping_pairs = pairs of operations of different goroutines whose [call,return] windows intersect; distinct_conc_shapes = distinct stamp-ordered call/return sequences of histories with at least one such pair; conservation scenarios (single-writer keys, determined final state) run a fixed number of rounds per variant; the same workloads run in a -race child, every second history/round without the stamping counter")
 	histories := c.Pick(1000, 50000)
 	workers := runtime.NumCPU()
 	if only := os.Getenv("C12_ONLY"); only != "" { // development aid: restrict to one container (or to the concurrent part)
@@ -454,6 +461,11 @@ func run(c *vf.Ctx) {
 	}
 	for _, d := range defs {
 		runDef(c, d, histories, workers)
+	}
+	// returned aggregates are caller-owned (held.go): the containers that hand out slices/maps/copies must have been held and scribbled
+	for _, n := range []string{"shrinkingmap", "randommap", "ringbuffer", "priorityqueue", "timedpriorityqueue", "indexedstorage", "onchangemap"} {
+		c.Require(n+":held_rechecks", histories*20)
+		c.Require(n+":held_scribbles", histories)
 	}
 	concPart(c)
 	c.SetExhaustive(false)
